@@ -8,7 +8,8 @@ R24.1  process executor, slot agreement: the k-th ';'-separated part written by
        taken from (slot 0: toString() <-> parseLine()), and the reader's minimum part count equals the
        number of parts written.
 R24.2  coverage: every member of SuppressionList::Suppression that the parent-side consumers read
-       (isSameParameters, used to find the parent's copy; getUnmatchedLocal/Global/InlineSuppressions) is
+       (isSameParameters, used to find the parent's copy; Suppression::isSuppressed, used for whole-program findings and
+       the parent-side gate; getUnmatchedLocal/Global/InlineSuppressions) is
        carried: by an explicit slot, by toString()/parseLine() (read by one, written by the other), or by
        the signal kind (isInline); the VALUE_SAFE table lists members that are consumed but need no
        transfer, with the reason.
@@ -22,11 +23,10 @@ from .common import paths
 
 S = 'SuppressionList::Suppression'
 
+# members consumed in the parent that need no transfer, with the value argument (empty since fix e0ca0ac: the two former entries, `type` and
+# `thisAndNextLine`, were wrong - whole-program findings are matched against the transferred inline suppressions in the parent)
 VALUE_SAFE = {
-    'thisAndNextLine': 'set only for inline suppressions (preprocessor); the parent\'s copies of inline suppressions all arrive through this channel, so '
-                       'isSameParameters compares false with false; the unmatched-consumers do not read it',
-    'type': 'read by getUnmatchedLocalSuppressions only for non-inline suppressions, whose parent copy is the original one (found through isSameParameters); '
-            'inline copies are consumed by getUnmatchedInlineSuppressions, which does not read type',
+    'fileIndex': 'index into the worker\'s file table; the parent matches by fileName',
 }
 
 
@@ -48,6 +48,61 @@ def part_index(n, var_di):
         if base is not None and base.get('di') == var_di and idx is not None and idx.get('k') == 'IntegerLiteral':
             return int(idx['v'])
     return None
+
+
+def add_or_merge(F, fn):
+    """every call of SuppressionList::addSuppression in fn binds its result to a local `err`, and a later statement of the same block is
+    `if (!err.empty()) { ... updateSuppressionState(...) ... }` with the update as an unconditional statement of that branch."""
+    body = F.body(fn)['body']
+    adds = 0
+    # alternative order "update first, add when unknown": addSuppression inside `if (!updateSuppressionState(..)) { .. }`
+    update_first = set()
+    for x in walk(body):
+        if x.get('k') == 'IfStmt' and x.get('cond') is not None:
+            c0 = strip(x['cond'])
+            if c0 is not None and c0.get('k') == 'UnaryOperator' and c0.get('op') == '!' and (strip(c0['c'][0]) or {}).get('fn') == 'SuppressionList::updateSuppressionState':
+                for y in walk(x.get('then') or {}):
+                    update_first.add(id(y))
+    for blk in walk(body):
+        if blk.get('k') != 'CompoundStmt':
+            continue
+        sts = blk.get('c', ())
+        for i, st in enumerate(sts):
+            calls = [y for y in walk(st) if y.get('k') == 'CXXMemberCallExpr' and y.get('fn') == 'SuppressionList::addSuppression']
+            if not calls or any(c_.get('k') in ('CompoundStmt', 'IfStmt', 'ForStmt', 'WhileStmt', 'CXXForRangeStmt') for c_ in [st]):
+                continue
+            adds += 1
+            if id(calls[0]) in update_first:
+                continue
+            err = None
+            if st.get('k') == 'DeclStmt':
+                for d in st.get('decls', ()):
+                    if d.get('init') is not None and any(y is calls[0] for y in walk(d['init'])):
+                        err = d['di']
+            if err is None:
+                return False, 'the result of addSuppression at line %s is discarded' % st['l'], st['l']
+            merged = False
+            for later in sts[i + 1:]:
+                if later.get('k') != 'IfStmt':
+                    continue
+                c0 = strip(later.get('cond'))
+                branch = None
+                if c0 is not None and c0.get('k') == 'UnaryOperator' and c0.get('op') == '!':
+                    inner = strip(c0['c'][0])
+                    if inner.get('k') == 'CXXMemberCallExpr' and (inner.get('fn') or '').endswith('::empty') and any(y.get('di') == err for y in walk(inner['c'][0])):
+                        branch = later.get('then')
+                elif c0 is not None and c0.get('k') == 'CXXMemberCallExpr' and (c0.get('fn') or '').endswith('::empty') and any(y.get('di') == err for y in walk(c0['c'][0])):
+                    branch = later.get('else')
+                if branch is None:
+                    continue
+                bs = branch.get('c', ()) if branch.get('k') == 'CompoundStmt' else [branch]
+                if any(strip(b_).get('k') == 'CXXMemberCallExpr' and strip(b_).get('fn') == 'SuppressionList::updateSuppressionState' for b_ in bs):
+                    merged = True
+            if not merged:
+                return False, 'after addSuppression at line %s there is no `if (!err.empty()) updateSuppressionState(...)` on the failure path' % st['l'], st['l']
+    if adds == 0:
+        return False, 'no addSuppression call found (received suppressions are not taken over)', None
+    return True, '', None
 
 
 def run(ctx):
@@ -146,7 +201,7 @@ def run(ctx):
     for x in walk(arm):
         if x.get('k') == 'BinaryOperator' and x.get('op') == '=' and sfields(x['c'][0]) == ['isInline'] and any(y.get('dk') == 'EnumConstant' for y in walk(x['c'][1])):
             carried.setdefault('isInline', 'signal kind (REPORT_SUPPR_INLINE)')
-    consumers = [S + '::isSameParameters', 'SuppressionList::getUnmatchedLocalSuppressions', 'SuppressionList::getUnmatchedGlobalSuppressions',
+    consumers = [S + '::isSameParameters', S + '::isSuppressed', 'SuppressionList::getUnmatchedLocalSuppressions', 'SuppressionList::getUnmatchedGlobalSuppressions',
                  'SuppressionList::getUnmatchedInlineSuppressions']
     consumed = {}
     for c in consumers:
@@ -208,15 +263,13 @@ def run(ctx):
            'writeSuppr no longer sends every inline suppression (the parent reports unmatched inline suppressions from this list)', '%s:%d' % (ws['file'], ws['line']))
     ctx.ob('R24.3', 'writeSuppr-checked', sent_checked, 'writeSuppr sends every checked non-inline suppression' if sent_checked else
            'writeSuppr no longer sends the checked non-inline suppressions', '%s:%d' % (ws['file'], ws['line']))
-    calls = {c['f'].split('(')[0] for c in hr['calls']}
-    ok = 'SuppressionList::addSuppression' in calls and 'SuppressionList::updateSuppressionState' in calls
-    ctx.ob('R24.3', 'reader-merges', ok, 'handleRead adds a received suppression or merges its state into the existing copy' if ok else
-           'handleRead no longer both adds and updates the received suppression state', '%s:%d' % (hr['file'], hr['line']))
-    td = F.one('ThreadData::check')
-    tcalls = [c['f'].split('(')[0] for c in td['calls']]
-    ok = 'SuppressionList::addSuppression' in tcalls and tcalls.count('SuppressionList::updateSuppressionState') >= 1
-    ctx.ob('R24.3', 'thread-propagates', ok, 'ThreadData::check propagates inline and global suppression state after check()' if ok else
-           'ThreadData::check no longer propagates suppression state', '%s:%d' % (td['file'], td['line']))
+    for fn_, label in ((hr, 'reader-merges'), (F.one('ThreadData::check'), 'thread-propagates')):
+        ok, why, line = add_or_merge(F, fn_)
+        ctx.ob('R24.3', label, ok,
+               ('%s: every addSuppression whose failure means "already known" is followed by updateSuppressionState on the failure path (state of later workers is merged, not dropped)'
+                % fn_['name']) if ok else
+               ('%s: %s - the checked/matched state a later worker reports for a suppression the parent already knows (inline suppression in a header shared by two files) is dropped, '
+                'so the result depends on which worker finishes first' % (fn_['name'], why)), '%s:%s' % (fn_['file'], line or fn_['line']))
     uss = F.one('SuppressionList::updateSuppressionState')
     wr = {a['n'].split('::')[-1] for a in uss['acc'] if a['n'].startswith(S + '::') and a['a'] != 'r'}
     ok = {'checked', 'matched'} <= wr
